@@ -52,6 +52,41 @@ func (c19) Gen(r *Rng, tier string, emit func(string, Tok)) {
 		}
 		emit("both", scenario{kind: kind, optSize: opt, fault: -1, skipSpec: L(I(4), I(int64(r.Intn(1000)))), prsSpec: L(I(2), L(pids...)), data: data, ops: []int{3}}.tok())
 	}
+	// a PacketsParser that returns data with skip = false, on streams with units the library parses nothing from:
+	// TDT and stuffing sections on PID 0x14 / 0x11, a CAT unit, a unit of non-PES bytes on an elementary PID
+	for k := 0; k < scale(tier, 20, 200); k++ {
+		m := genRefStream(r, streamOpts{PESPIDs: r.Range(1, 2), UnitsPerPID: 2, MaxPES: 300, Tables: true, Repeats: r.Intn(2)})
+		data := m.bytes()
+		np := len(data) / 188
+		var d []byte
+		cc := map[uint16]*byte{}
+		extra := func(pid uint16, unit []byte, psi bool) {
+			if cc[pid] == nil {
+				c := byte(r.Intn(16))
+				cc[pid] = &c
+			}
+			u := &refUnit{PID: pid, IsPSI: psi, Bytes: unit, MinFirst: len(unit), TailFF: true}
+			for _, p := range packetiseUnit(r, u, 0, cc[pid], false) {
+				d = append(d, p.encode()...)
+			}
+		}
+		for i := 0; i < np; i++ {
+			d = append(d, pktAt(data, i)...)
+			if r.Chance(1, 3) {
+				switch r.Intn(4) {
+				case 0:
+					extra(0x14, append([]byte{0, 0x70, 0x70, 0x05}, r.Bytes(5)...), true) // TDT
+				case 1:
+					extra([]uint16{0x11, 0x14}[r.Intn(2)], []byte{0, 0x72, 0x70, 0x02, 0xaa, 0xbb}, true) // stuffing section
+				case 2:
+					extra(1, append([]byte{0, 0x01, 0xb0, 0x09}, r.Bytes(9)...), true) // CAT: private
+				case 3:
+					extra(0x1abc, append([]byte{0xff, 0x00, 0x01}, r.Bytes(r.Range(1, 60))...), false) // not a PES start code
+				}
+			}
+		}
+		emit("parser-data-noskip", scenario{kind: r.Intn(3), optSize: 188, fault: -1, prsSpec: L(I(5)), data: d, ops: []int{3}}.tok())
+	}
 	c19LongRuns(r, tier, emit)
 }
 
@@ -216,6 +251,36 @@ func (c19) Oracle(c Tok, obs Tok) string {
 		}
 	}
 	switch s.prsSpec.At(0).Int() {
+	case 5: // data with skip = false: on PSI PIDs and on PES units the library's own data come out, never the parser's
+		psi := map[uint16]bool{0: true, 0x10: true, 0x11: true, 0x12: true, 0x13: true, 0x14: true, 0x1e: true, 0x1f: true}
+		for _, d := range run.data {
+			if d != nil && d.PAT != nil {
+				for _, pg := range d.PAT.Programs {
+					if pg.ProgramNumber > 0 {
+						psi[pg.ProgramMapID] = true
+					}
+				}
+			}
+		}
+		for _, d := range run.data {
+			if d == nil || d.PAT != nil || d.PMT != nil || d.PES != nil || d.EIT != nil || d.NIT != nil || d.SDT != nil || d.TOT != nil {
+				continue
+			}
+			// made by the parser (replace): FirstPacket carries the concatenated payload
+			if d.PID == 1 {
+				continue
+			}
+			pl := []byte(nil)
+			if d.FirstPacket != nil {
+				pl = d.FirstPacket.Payload
+			}
+			if psi[d.PID] {
+				return fmt.Sprintf("a PacketsParser that returned skip=false had its data delivered for a unit of PSI PID %#x", d.PID)
+			}
+			if len(pl) >= 3 && pl[0] == 0 && pl[1] == 0 && pl[2] == 1 {
+				return fmt.Sprintf("a PacketsParser that returned skip=false had its data delivered for a PES unit of PID %#x", d.PID)
+			}
+		}
 	case 1: // observer: output unchanged
 		s2 := s
 		s2.prsSpec = L(I(0))
